@@ -15,23 +15,26 @@ MANIFEST = dict(
          "nil error iff 2xx and decodable (C10_nil_iff), error kinds and quoting (C10_kinds), response always returned (C10_resp_returned), "
          "nil result on every error path, transport error passed on, empty body gives the zero value. The model is tied to restclient.tmpl by "
          "generating real clients with the rebuilt `shoot rest`, compiling them and calling every method against a scripted RoundTripper for EVERY "
-         "status 100..599 plus -1, 0, 99, 600, 999 x {empty, valid, malformed, wrong-typed} body x {pointer, slice, map, none} result x "
-         "{refused, cancelled, timeout} fault, exhaustively in both tiers, plus seeded random interfaces; 3xx answers with a Location header under the "
-         "three CheckRedirect policies (follow / ErrUseLastResponse / refuse with an error); and clients whose chain contains LoggingMiddleware and "
-         "RetryMiddleware(n) in front of a scripted base transport (every script of length n+1 over 8 answers for n = 0..2; composed with the C20 "
+         "status 100..599 plus -1, 0, 99, 600, 999 x {empty, valid, malformed, wrong-typed, broken = transfer fails after the headers with nothing / a "
+         "third / all but the last byte delivered} body x {pointer, slice, map, none} result x "
+         "{refused, cancelled, timeout} fault, exhaustively in both tiers, plus seeded random interfaces; 3xx answers with a Location header (relative, "
+         "absolute, other host, other port, other scheme, sub-domain) followed by the client exactly as NewRest built it (its redirect policy untouched: "
+         "the second answer decides, and the followed request goes where Location says) and under the two stopping "
+         "CheckRedirect policies (ErrUseLastResponse / refuse with an error); and clients whose chain contains LoggingMiddleware and "
+         "RetryMiddleware(n) in front of a scripted base transport (every script of length n+1 over 10 answers for n = 0..2; composed with the C20 "
          "model: C10_retry_first_acceptable, C10_retry_chain) — the error path must still quote the body; and clients built with five RestConf "
          "option combinations (DefaultHeaders, Timeout(1|5|30) in the seconds convention, logging, Use) x methods with and without a context "
          "parameter against a transport that honours the request context: the status/body mapping is unchanged, a context cancelled before the call "
          "or a deadline expiring during it comes back as that error, the context the transport receives is the caller's (ctxwire), and it stays "
          "live until the body has been read (answers of 5-70 KiB delivered 97 bytes per Read by a body that fails once the request context is done).",
-    note="Lean kernel + standard axioms; encoding/json behaviour on the four body classes and http.Client.Do are assumptions checked by the "
+    note="Lean kernel + standard axioms; encoding/json behaviour on the five body classes (a body whose Read fails makes Decode return that error) and http.Client.Do are assumptions checked by the "
          "correspondence run; status >= 600 is outside the property (region Out, advisory). Known finding F_respWithError: a response that "
          "client.Do returns together with an error (refused redirect) is dropped.",
     technique="Lean 4 proof (case analysis over the status bands, all Int) + exhaustive model/implementation correspondence on generated clients",
     design="5/C10")
 
 ALL_STATUSES = "100-599,-1,0,99,600,999"
-BODIES = ["empty", "valid", "malformed", "wrongtype"]
+BODIES = ["empty", "valid", "malformed", "wrongtype", "broken"]
 FAULTS = ["refused", "cancelled", "cancelled-ctx", "timeout", "timeout-client", "refused-real"]
 LOGGED = [("log0", True, 0), ("log2", True, 2), ("plain3", False, 3)]
 BOUNDARY = [-1, 0, 99, 100, 101, 199, 200, 201, 204, 226, 299, 300, 301, 302, 304, 307, 308, 399, 400, 401, 404, 418, 429, 499, 500, 501, 502, 503,
@@ -66,8 +69,8 @@ CFG_STATUSES_SMALL = [200, 204, 299, 302, 404, 500, 503]
 
 REDIR_FIRSTS = [301, 302, 303, 307, 308]
 REDIR_SECONDS = [200, 204, 404, 503, 302]
-RETRY_ALPHA = ["r503m", "r500e", "e", "r200v", "r200e", "r404v", "r302e", "r502w"]
-CLASS_OF = {"e": "empty", "v": "valid", "m": "malformed", "w": "wrongtype"}
+RETRY_ALPHA = ["r503m", "r500e", "e", "r200v", "r200e", "r404v", "r302e", "r502w", "r200b", "r500b"]
+CLASS_OF = {"e": "empty", "v": "valid", "m": "malformed", "w": "wrongtype", "b": "broken"}
 
 
 def make_pkg(pid, iface, statuses, faults=FAULTS, redirect=None, retry=None, logged=LOGGED, configured=None):
@@ -317,14 +320,16 @@ def run(ctx, obl):
     if getattr(ctx, "c10_skipped", None):
         ctx.notes.append("real connection-refused leg skipped for %d calls (loopback not available)" % len(ctx.c10_skipped))
     res.rule = ("exhaustive: one generated client with a pointer, a slice, a map and a no-result method, every status 100..599 plus -1, 0, 99, 600, 999 "
-                "x {empty, valid, malformed, wrongtype} body, plus the faults {refused, cancelled, timeout (scripted), timeout (http.Client.Timeout)} "
+                "x {empty, valid, malformed, wrongtype, broken (lost in transit)} body — through the plain client, a logging chain and five RestConf option combinations —, plus the faults {refused, cancelled, timeout (scripted), timeout (http.Client.Timeout)} "
                 "and a real connection refused by a closed local port through the untouched default transport (%d calls); plus %d further generated interfaces (each verb x each result shape, then seeded random ones: 11 result types, "
                 "with/without context, path parameters) on the boundary statuses and random ones. Each call goes through the compiled generated "
                 "method against a scripted RoundTripper. non-trivial = distinct (shape, result type, status, body | fault)"
                 % (len([c for c in cases if c["pkg"] == "x0"]), len(pkgs) - 1))
     res.assumptions = ["encoding/json: empty body => io.EOF, valid => decoded, malformed/wrong-typed => error (checked on every run for 11 result types)",
                        "http.Client.Do returns the RoundTripper's response object itself and wraps its error in *url.Error (identity observed)",
-                       "3xx responses carry no Location header (otherwise http.Client follows the redirect before the generated code sees it)"]
+                       "a response body whose Read fails before a complete JSON value arrived makes json.Decoder.Decode return that Read error (observed)",
+                       "3xx responses of the status matrix carry no Location header; with one, http.Client follows it under the client's own redirect policy "
+                       "before the generated code sees anything (the redirect legs: six kinds of Location, all followed by net/http's default policy)"]
     return res
 
 
